@@ -810,12 +810,14 @@ class ExprTuple(Expr):
     """Whether the tuple is implicit (e.g. without parentheses in a subscript's slice)."""
 
     def iterate(self, *, flat: bool = True) -> Iterator[str | Expr]:
-        if not self.implicit:
+        # The empty tuple is always written with its parentheses: `a[()]`.
+        parentheses = not self.implicit or not self.elements
+        if parentheses:
             yield "("
         yield from _join(self.elements, ", ", flat=flat)
         if len(self.elements) == 1:
             yield ","
-        if not self.implicit:
+        if parentheses:
             yield ")"
 
 
